@@ -565,7 +565,13 @@ class RZILTransformer(Transformer):
                 Branch("branch", cond=items[0], then=Empty(""), otherwise=hybrid.stmt)
             )
 
-        then_p, else_p = self.cast_operands(a=then_p, b=else_p, immutable_a=False)
+        # The arms are converted with the usual arithmetic conversions,
+        # which include the integer promotion (C11 - 6.5.15).
+        then_p, else_p = self.cast_operands(
+            a=self.promotion_cast(then_p),
+            b=self.promotion_cast(else_p),
+            immutable_a=False,
+        )
         return self.add_op(Ternary(f"cond", items[0], then_p, else_p))
 
     def update_assign_src(self, assign: Assignment):
